@@ -35,6 +35,9 @@ survives a failed unshelve) and, when changes are applied, is reached only after
 deletes only for 'apply' and 'delete-only' (dry-run, preview and keep leave the shelf).
 S6 ShelfManager.delete_shelf deletes exactly get_shelf_filename(shelf_id); nothing else in shelf.py deletes from the
 shelf transport.
+S7 (K6) the revision id stored in the metadata is the revision of the very tree self.shelf_transform was built on
+(ShelfCreator.__init__: <tree>.preview_transform(); write_shelf: <tree>.get_revision_id()), and the reader rebuilds the
+transform on revision_tree(metadata[b"revision_id"]). Added while testing against seeded changes.
 Does not decide: that the shelved transform, applied back, restores the same tree (tree values).
 """
 ASSUMPTIONS = ["the shelf directory is accessed under the working tree's write lock (callers), so list_dir + open is not raced"]
@@ -139,6 +142,32 @@ def run(ctx):
     enc = any(call_attr(c) == "encode" and const_value(c.args[0]) == "utf-8" for c in calls_in(fm) if c.args)
     dec = any(call_attr(c) == "decode" and const_value(c.args[0]) == "utf-8" for c in calls_in(fp) if c.args)
     ctx.check("S4-metadata-keys", f"{SH}:ShelfCreator.metadata_record/Unshelver.parse_metadata", enc and dec, "the message is encoded and decoded as utf-8")
+    # ---- S7: the revision recorded as the shelf's base is the revision of the tree the shelf transform was built on
+    # (the reader rebuilds the transform on revision_tree(metadata[revision_id]); any other revision makes unshelve merge
+    # against a base the stored changes are not relative to)
+    init = repo.func(SH, "ShelfCreator.__init__")
+    built_on = sorted({norm(c.func.value) for n in walk_own(init) if isinstance(n, ast.Assign) and norm(n.targets[0]) == "self.shelf_transform" for c in [n.value] if isinstance(c, ast.Call) and call_attr(c) == "preview_transform"})
+    ctx.require(len(built_on) == 1 and built_on[0].startswith("self."), f"{SH}:ShelfCreator.__init__: tree of self.shelf_transform not recognised ({built_on})")
+    fw = repo.func(SH, "ShelfCreator.write_shelf")
+    wcalls = [c for c in calls_in(fw) if call_attr(c) == "_write_shelf"]
+    ctx.require(len(wcalls) == 1 and len(wcalls[0].args) >= 3, f"{SH}:ShelfCreator.write_shelf: the _write_shelf call was not found")
+
+    def _resolve(e):
+        seen = 0
+        while isinstance(e, ast.Name) and seen < 4:
+            vals = [n.value for n in walk_own(fw) if isinstance(n, ast.Assign) and any(norm(t) == e.id for t in n.targets)]
+            if len(vals) != 1:
+                break
+            e, seen = vals[0], seen + 1
+        return norm(e)
+
+    tr_, rid_ = _resolve(wcalls[0].args[1]), _resolve(wcalls[0].args[2])
+    ctx.check("S7-base-is-transform-tree", f"{SH}:ShelfCreator.write_shelf", tr_ == "self.shelf_transform" and rid_ == f"{built_on[0]}.get_revision_id()", f"the shelf stores self.shelf_transform (built on {built_on[0]}) together with {built_on[0]}.get_revision_id()", construct=f"_write_shelf(…, {tr_}, {rid_})", message=f"write_shelf records `{rid_}` as the base revision of a transform that was built on {built_on[0]}: with a shelve target other than that revision (shelve -r), unshelve rebuilds the transform on the wrong tree and restores different content or conflicts")
+    rd_tree = [norm(c.func.value) for c in calls_in(ft) if call_attr(c) == "preview_transform"]
+    rev_of = {norm(n.targets[0]): norm(n.value) for n in ast.walk(ft) if isinstance(n, ast.Assign) and isinstance(n.value, ast.Call) and call_attr(n.value) == "revision_tree"}
+    key_of = {norm(n.targets[0]): n.value.slice.value for n in walk_own(ft) if isinstance(n, ast.Assign) and isinstance(n.value, ast.Subscript) and isinstance(n.value.slice, ast.Constant)}
+    ok_r = len(rd_tree) == 1 and rd_tree[0] in rev_of and all(any(k in v and key_of[k] == b"revision_id" for k in key_of) for t, v in rev_of.items() if t == rd_tree[0])
+    ctx.check("S7-base-is-transform-tree", f"{SH}:Unshelver.from_tree_and_shelf", ok_r, "the reader deserialises the transform on revision_tree(metadata[b'revision_id'])", construct=f"{rd_tree} / {rev_of}", message="from_tree_and_shelf no longer rebuilds the shelf transform on the tree of the recorded base revision")
     # ---- S5 ---------------------------------------------------------------------------------------
     fnu, gu, whereu = fn_cfg(ctx, UI, "Unshelver.run")
     dm = need(whereu, calling(gu, attr="do_merge"), "merger.do_merge()")
@@ -182,6 +211,8 @@ def run(ctx):
 
 
 MUTANTS = [
+    Mutant("shelf base recorded from the working tree's last revision", SH, "        revision_id = self.target_tree.get_revision_id()\n", "        revision_id = self.work_tree.last_revision()\n", expect="S7-base-is-transform-tree"),
+    Mutant("neutral: base revision id passed inline", SH, "        revision_id = self.target_tree.get_revision_id()\n        return self._write_shelf(shelf_file, self.shelf_transform, revision_id, message)\n", "        return self._write_shelf(\n            shelf_file, self.shelf_transform, self.target_tree.get_revision_id(), message\n        )\n", neutral=True),
     Mutant("tree reverted first, shelf written in a with block", SH, "        next_shelf, shelf_file = self.new_shelf()\n        try:\n            creator.write_shelf(shelf_file, message)\n        finally:\n            shelf_file.close()\n        creator.transform()\n", "        creator.transform()\n        next_shelf, shelf_file = self.new_shelf()\n        with shelf_file:\n            creator.write_shelf(shelf_file, message)\n", expect="S3-write-before-revert"),
     Mutant("neutral: shelf written in a with block before the revert", SH, "        try:\n            creator.write_shelf(shelf_file, message)\n        finally:\n            shelf_file.close()\n        creator.transform()\n", "        with shelf_file:\n            creator.write_shelf(shelf_file, message)\n        creator.transform()\n", neutral=True),
     Mutant("recogniser accepts a different prefix", SH, 'matcher = re.compile("shelf-([1-9][0-9]*)")', 'matcher = re.compile("shelf([1-9][0-9]*)")', expect="S1-name-template"),
